@@ -71,14 +71,18 @@ def cut_features(g, part, case):
     return f
 
 
-def random_cut_case(rng, max_heavy, kinds=('$', '><'), max_parts=6, mol_kw=None, render_opts=None, ctor=None, plain_names=False):
-    ringy = rng.random() < 0.35
+def random_cut_case(rng, max_heavy, kinds=('$', '><'), max_parts=6, mol_kw=None, render_opts=None, ctor=None, plain_names=False, allow_lower5=False, mode=None):
+    ringy = rng.random() < 0.35 or mode is not None
     if ringy:
         kw = dict(p_ring=0.9, p_arom=rng.choice([0.2, 0.6]))
-        if rng.random() < 0.25:
+        if mode is None and rng.random() < 0.25:
             # condensed aromatic systems (naphthalene ... tetracene skeletons), often cut through their rings
             kw = dict(p_ring=0.3, p_arom=0.95, p_fused=0.85)
             max_heavy = max(max_heavy, 14)
+        elif mode == 'het5_lower' or rng.random() < 0.3:
+            # five-membered heteroaromatic skeletons in Kekule form; those with a free N-H also in lower-case spelling,
+            # often cut through the ring
+            kw = dict(p_ring=0.3, p_arom=0.3, p_het5=0.8, p_lower5=(0.6 if mode is None else 1.0) if allow_lower5 else 0.0)
         kw.update(mol_kw or {})
         for _ in range(30):
             g = M.gen_molecule(rng, max_heavy=max(max_heavy, 8), **kw)
@@ -137,6 +141,10 @@ def random_cut_case(rng, max_heavy, kinds=('$', '><'), max_parts=6, mol_kw=None,
     rng.shuffle(base_nodes)
     feats = cut_features(g, part, case)
     feats.add('ctor_' + ctor)
+    if any(d.get('lower') for _, d in g.nodes(data=True)):
+        # a ring the documented aromaticity definition does not call aromatic, nevertheless written in lower case: the
+        # documentation asks for the Kekule form, the library accepts this spelling where it can kekulise the result
+        feats.add('lower_case_kekule_ring')
     names = None
     if rng.random() < 0.3 and nparts <= len(NAME_POOL) and not plain_names:
         # fragment names as people write them: element-like, lower case, starting with a digit, prefixes of each other
@@ -650,8 +658,10 @@ def resolver_workload(rng, n, max_heavy=(3, 6, 10, 16)):
     while made < n:
         r = rng.random()
         case = None
-        if r < 0.27:
-            case = random_cut_case(rng, rng.choice(max_heavy))
+        if r < 0.04:
+            case = random_cut_case(rng, rng.choice(max_heavy), allow_lower5=True, mode='het5_lower')
+        elif r < 0.27:
+            case = random_cut_case(rng, rng.choice(max_heavy), allow_lower5=True)
         elif r < 0.30:
             case = random_label_insensitive_cut_case(rng, rng.choice(max_heavy[:3]))
         elif r < 0.45:
